@@ -73,7 +73,12 @@ pub fn full_digest(sess: &Sess) -> Vec<String> {
         let mut f: Vec<String> = sess
             .ctx
             .functions()
-            .map(|fi| format!("fn {}: {}", fi.fn_name, fi.signature_str))
+            .map(|fi| {
+                format!(
+                    "fn {}: {} name={:?} desc={:?} url={:?} examples={:?}",
+                    fi.fn_name, fi.signature_str, fi.name, fi.description, fi.url, fi.examples
+                )
+            })
             .collect();
         f.sort();
         f
@@ -117,10 +122,14 @@ pub fn full_digest(sess: &Sess) -> Vec<String> {
                 let mut al: Vec<String> = md.aliases.iter().map(|(a, _)| a.to_string()).collect();
                 al.sort();
                 format!(
-                    "unitrep {n}: {b} aliases={} metric={} binary={}",
+                    "unitrep {n}: {b} aliases={} metric={} binary={} name={:?} canonical={:?} url={:?} abbrev={}",
                     al.join("|"),
                     md.metric_prefixes,
-                    md.binary_prefixes
+                    md.binary_prefixes,
+                    md.name,
+                    md.canonical_name,
+                    md.url,
+                    md.is_abbreviation
                 )
             })
             .collect();
